@@ -403,7 +403,42 @@ def F22():
     return "DataTypeParameter.clean(numpy.float32(2.5)) was accepted"
 
 
-ALL = ["F1", "F2", "F3", "F4", "F5", "F6", "F7", "F8", "F9", "F11", "F13", "F14", "F15", "F16", "F17", "F18", "F19", "F20", "F21", "F22"]
+def F23():
+    import warnings
+    from mpilot.parser.parser import Parser
+    try:
+        with warnings.catch_warnings():
+            warnings.simplefilter("error")
+            v = Parser().parse('A = B(P = "C:\\path")').commands[0].arguments[0].value.value
+    except SyntaxError:
+        return "a string with an unknown escape is rejected"
+    except Exception as e:
+        return 'parsing A = B(P = "C:\\path") with warnings as errors raises %s' % type(e).__name__
+    if v != "C:\\path":
+        return "parsed %r" % v
+
+
+def F24():
+    import numpy
+    from mpilot.libraries.eems.basic import NormalizeCat, NormalizeCurve, NormalizeMeanToMid
+    from mpilot.arguments import Argument
+
+    class P(object):
+        def __init__(self, a):
+            self.result = a
+            self.is_finished = True
+    a = numpy.array([1.0, 3.0, 2.0, 5.0])
+    try:
+        r = NormalizeCat("R", [Argument("InFieldName", None, 1)]).execute(InFieldName=P(a), RawValues=[1, 3], NormalValues=[10, 30], DefaultNormalValue=-1)
+        if numpy.ma.getdata(r).tolist() != [10.0, 30.0, -1.0, -1.0]:
+            return "NormalizeCat of the plain array [1, 3, 2, 5] with 1->10, 3->30, default -1 = %r" % numpy.ma.getdata(r).tolist()
+        NormalizeCurve("R", [Argument("InFieldName", None, 1)]).execute(InFieldName=P(a), RawValues=[1, 3], NormalValues=[10, 30])
+        NormalizeMeanToMid("R", [Argument("InFieldName", None, 1)]).execute(InFieldName=P(a), IgnoreZeros=False, NormalValues=[0, 1, 2, 3, 4])
+    except Exception as e:
+        return "a conversion of the basic library raises %s on a plain ndarray input" % type(e).__name__
+
+
+ALL = ["F1", "F2", "F3", "F4", "F5", "F6", "F7", "F8", "F9", "F11", "F13", "F14", "F15", "F16", "F17", "F18", "F19", "F20", "F21", "F22", "F23", "F24"]
 
 if __name__ == "__main__":
     sel = sys.argv[1:] or ALL
